@@ -639,74 +639,93 @@ type c12job struct {
 	retry int
 	// explain words a failure: class is "P" (child died), "H" (timeout) or "ok" (finished, not served)
 	explain func(class, out, panicLine string) (key, text string)
+	// solo: the scenario's verdict has a wall-clock component (deadlines of the code under test); a
+	// failure other than a crash is confirmed by running the scenario once more on its own, after the
+	// parallel batch, before it is reported (a defect reproduces alone, a starved machine does not)
+	solo bool
 }
 
 func runC12Jobs(jobs []*c12job, w *hx.Writer) {
 	var wg sync.WaitGroup
 	sem := make(chan struct{}, 8)
-	var mu sync.Mutex
-	for _, j := range jobs {
-		wg.Add(1)
-		sem <- struct{}{}
-		go func(j *c12job) {
-			defer wg.Done()
-			defer func() { <-sem }()
-			var out, class, lastPanic string
-			// a scenario that merely did not finish in time is run again (wall-clock bound, loaded
-			// machine); a crash is reported at once
-			for attempt, rig := 0, 0; attempt <= j.retry; attempt++ {
-				out, class, lastPanic = runSubQuiet(j.sub, j.arg, j.timeout)
-				if class == "R" && rig < 3 { // the scenario could not be set up: not an attempt
-					rig++
-					attempt--
-					continue
-				}
-				if class == "P" {
+	// evaluate runs one job (with its retries) and fills in j.c; it reports whether the job failed in a
+	// way other than a crash
+	evaluate := func(j *c12job) (softFail bool) {
+		var out, class, lastPanic string
+		// a scenario that merely did not finish in time is run again (wall-clock bound, loaded
+		// machine); a crash is reported at once
+		for attempt, rig := 0, 0; attempt <= j.retry; attempt++ {
+			out, class, lastPanic = runSubQuiet(j.sub, j.arg, j.timeout)
+			if class == "R" && rig < 3 { // the scenario could not be set up: not an attempt
+				rig++
+				attempt--
+				continue
+			}
+			if class == "P" {
+				break
+			}
+			if class == "ok" {
+				if _, served := j.finish(out); served {
 					break
 				}
-				if class == "ok" {
-					if _, served := j.finish(out); served {
-						break
-					}
+			}
+		}
+		impl, served := "", false
+		if class == "ok" {
+			impl, served = j.finish(out)
+		}
+		oracle := "ok"
+		explain := j.explain
+		if explain == nil {
+			explain = func(class, out, panicLine string) (string, string) {
+				switch class {
+				case "P":
+					return "node-crash:" + j.group, "the node crashed on a malformed " + j.group + " input (" + j.arg + "): " + panicLine
+				case "H":
+					return "node-hang:" + j.group, "the node did not come back after a malformed " + j.group + " input (" + j.arg + ")"
 				}
+				return "stopped-serving:" + j.group, "after a malformed " + j.group + " input (" + j.arg + ") the node no longer serves honest sessions / requests: " + out
 			}
-			impl, served := "", false
-			if class == "ok" {
-				impl, served = j.finish(out)
-			}
-			oracle := "ok"
-			explain := j.explain
-			if explain == nil {
-				explain = func(class, out, panicLine string) (string, string) {
-					switch class {
-					case "P":
-						return "node-crash:" + j.group, "the node crashed on a malformed " + j.group + " input (" + j.arg + "): " + panicLine
-					case "H":
-						return "node-hang:" + j.group, "the node did not come back after a malformed " + j.group + " input (" + j.arg + ")"
-					}
-					return "stopped-serving:" + j.group, "after a malformed " + j.group + " input (" + j.arg + ") the node no longer serves honest sessions / requests: " + out
-				}
-			}
-			switch {
-			case class == "R":
-				impl = "R"
-				oracle = hx.Fail("rig", "the scenario could not be set up in four attempts (ports): "+lastPanic)
-			case class == "P":
-				impl = hx.P
-				oracle = hx.Fail(explain("P", out, lastPanic))
-			case class == "H":
-				impl = "H"
-				oracle = hx.Fail(explain("H", out, lastPanic))
-			case !served:
-				oracle = hx.Fail(explain("ok", out, lastPanic))
-			}
-			j.c.Impl = impl
-			j.c.Oracle = oracle
-			mu.Lock()
-			mu.Unlock()
-		}(j)
+		}
+		switch {
+		case class == "R":
+			impl = "R"
+			oracle = hx.Fail("rig", "the scenario could not be set up in four attempts (ports): "+lastPanic)
+		case class == "P":
+			impl = hx.P
+			oracle = hx.Fail(explain("P", out, lastPanic))
+		case class == "H":
+			impl = "H"
+			oracle = hx.Fail(explain("H", out, lastPanic))
+			softFail = true
+		case !served:
+			oracle = hx.Fail(explain("ok", out, lastPanic))
+			softFail = true
+		}
+		j.c.Impl = impl
+		j.c.Oracle = oracle
+		return softFail
+	}
+	soft := make([]bool, len(jobs))
+	for i, j := range jobs {
+		wg.Add(1)
+		sem <- struct{}{}
+		go func(i int, j *c12job) {
+			defer wg.Done()
+			defer func() { <-sem }()
+			soft[i] = evaluate(j)
+		}(i, j)
 	}
 	wg.Wait()
+	for i, j := range jobs {
+		if soft[i] && j.solo {
+			first := j.c.Oracle
+			if !evaluate(j) && j.c.Oracle == "ok" {
+				j.c.Tags = append(j.c.Tags, "passed-when-run-alone")
+				_ = first
+			}
+		}
+	}
 	for _, j := range jobs {
 		w.Put(j.c)
 	}
